@@ -267,6 +267,20 @@ fn reduce<D: PartialEq>(frame: &Frame, eval: &dyn Fn(&Frame) -> Option<D>) -> Fr
                 continue 'outer;
             }
         }
+        // spelling: upper-case an argument when its letter case does not matter
+        for i in 1..cur.len() {
+            if let El::B(b) = &cur[i] {
+                let up = b.to_ascii_uppercase();
+                if up != *b {
+                    let mut cand = cur.clone();
+                    cand[i] = El::B(up);
+                    if eval(&cand).as_ref() == Some(&d0) {
+                        cur = cand;
+                        continue 'outer;
+                    }
+                }
+            }
+        }
         // option + value pairs: drop two adjacent arguments at once
         for i in (1..cur.len().saturating_sub(1)).rev() {
             let mut cand = cur.clone();
@@ -312,7 +326,8 @@ fn token_class(e: &El, keywords: &BTreeSet<String>) -> String {
     };
     let up = s.to_uppercase();
     if keywords.contains(&up) {
-        return up;
+        // keyword text; lower-case when the frame did not spell it in upper case
+        return if s == up { up } else { s.to_lowercase() };
     }
     let digits = s.strip_prefix(['-', '+']).unwrap_or(s);
     if !digits.is_empty() && digits.bytes().all(|c| c.is_ascii_digit()) {
